@@ -9,7 +9,7 @@ export GOFLAGS=-mod=mod GOPROXY=off GOSUMDB=off GOTOOLCHAIN=local
 for f in $(grep '\.v$' coq/_CoqProject); do
   [ -f "coq/${f}o" ] && [ ! "coq/$f" -nt "coq/${f}o" ] || { echo "Coq build failed: $f"; exit 1; }
 done
-( cd model && timeout 900 coqc -Q ../coq SK ../coq/Extract/Extract.v >/dev/null && ocamlfind ocamlopt -O3 -package zarith -linkpkg -w -a model.mli model.ml driver.ml -o vmodel )
+( cd model && timeout 900 coqc -Q ../coq SK ../coq/Extract/Extract.v >/dev/null && ocamlfind ocamlopt -O3 -package zarith,unix -linkpkg -w -a model.mli model.ml driver.ml -o vmodel )
 cp /repo/go.sum harness/go.sum
 ( cd harness && go build -tags verif -o ../.work/vrun . )
 python3 - <<'PY'
